@@ -223,6 +223,7 @@ struct FnDirective {
     mutparams: Vec<String>,
     retain_captures: Vec<(String, String)>,
     retain_clauses: Vec<String>,
+    slots: Vec<(String, String)>,
 }
 
 struct Hint {
@@ -602,6 +603,7 @@ fn main() {
                 noisolation: opts.contains_key("noisolation"),
                 guards: opts.get("guards").map(|s| s.split_whitespace().map(|x| x.to_string()).collect()).unwrap_or_default(),
                 retain_captures: opts.get("retain_captures").map(|s| s.split(';').filter_map(|x| x.split_once(':').map(|(a, b)| (a.trim().to_string(), b.trim().to_string()))).collect()).unwrap_or_default(),
+                slots: opts.get("slots").map(|s| s.split_whitespace().filter_map(|x| x.split_once(':').map(|(a, b)| (a.to_string(), b.to_string()))).collect()).unwrap_or_default(),
                 mutparams: opts.get("mutparams").map(|s| s.split_whitespace().map(|x| x.to_string()).collect()).unwrap_or_default(),
                 ..Default::default()
             };
@@ -1055,6 +1057,37 @@ fn emit_fn(
         } else if let Some(r) = t.strip_prefix("vx_await_check!(") {
             let g = r.trim_end_matches(");");
             *l = format!("assert(!vx_guard_{g}); // [C17.no_wait_while_holding_{g}] /*vxguard*/");
+        }
+    }
+    // R28: one-slot buffers named by the contract: every store `self.<slot> = Some(..)` carries the obligation that the slot
+    // is empty (a value parked there is never overwritten)
+    for (slot, label) in &d.slots {
+        let needle = format!("self.{slot} = Some(");
+        let mut k = 0;
+        while k < body.len() {
+            let l = body[k].clone();
+            if l.contains("/*vxslot*/") {
+                k += 1;
+                continue;
+            }
+            if l.trim_start().starts_with(&needle) || l.contains(&format!("self.{slot}.insert(")) {
+                let ind: String = l.chars().take_while(|c| c.is_whitespace()).collect();
+                body.insert(k, format!("{ind}assert(self.{slot} is None); // [{label}] /*vxslot*/"));
+                k += 2;
+                continue;
+            }
+            if let Some(p) = l.find(" => ") {
+                if l[p + 4..].trim_start().starts_with(&needle) && l.trim_end().ends_with(',') {
+                    let expr = l[p + 4..].trim_end().trim_end_matches(',').to_string();
+                    body[k] = format!("{} => {{ /*vxslot*/", &l[..p]);
+                    body.insert(k + 1, format!("assert(self.{slot} is None); // [{label}] /*vxslot*/"));
+                    body.insert(k + 2, format!("{expr} /*vxslot*/"));
+                    body.insert(k + 3, "} /*vxslot*/".to_string());
+                    k += 4;
+                    continue;
+                }
+            }
+            k += 1;
         }
     }
     // loop clauses
